@@ -92,11 +92,18 @@ def cfg_faults(rng: random.Random, gen, ent, enc, info):
                            '.'.join(m['itf_fqn']) == info['ports'][mc['port']]['itf'])
         out.append(('mc-reply-value-not-in-enum',
                     dict(enc, multiclient=dict(mc, reply=[fresh(rng, set(enum_fields), 'camel')]))))
-        non_enum = [e.name for e in itf.events if e.direction == 'in'
-                    and e.reply.ids in (['void'], ['bool']) and e.name != mc['release']]
-        if non_enum:
-            out.append(('mc-claim-reply-not-enum',
-                        dict(enc, multiclient=dict(mc, claim=rng.choice(non_enum)))))
+        kind_of = {'.'.join(f): k for k, f, _o in decls}
+        for ev in itf.events:
+            if ev.direction != 'in' or ev.name == mc['release']:
+                continue
+            if ev.reply.target is None:
+                kind = ev.reply.ids[0]
+            elif kind_of.get(ev.reply.target) == 'subints':
+                kind = 'subint'
+            else:
+                continue
+            out.append((f'mc-claim-reply-not-enum:{kind}',
+                        dict(enc, multiclient=dict(mc, claim=ev.name))))
         sts_side = copy.deepcopy(enc)
         sts_side['provides'] = {'sts': 'ALL', 'mts': 'NONE'}
         out.append(('mc-on-sts-port', sts_side))
